@@ -136,6 +136,8 @@ package types
 
 // the validator list carried by an epoch header: one 20-byte address per entry between vanity and seal
 // verif:func ParseValidators
+//@ nopanic dryrun
+//@ loop 1 invariant i >= 0 && i <= n && len(result) == n && n >= 0 && len(validatorBytes) % 20 == 0 && n == len(validatorBytes) / 20 && n * 20 == len(validatorBytes)
 //@ ensures [count] result1 == nil ==> (len(extra) - 97) % 20 == 0 && len(result0) == (len(extra) - 97) / 20
 
 // accepted header: becomes the head; its (time, height, root) is the consensus state; an epoch header's validator
@@ -165,3 +167,21 @@ package types
 //@ callsite update [own-state-this-header] dollar_header == as(header, *Header) && dollar_store == store
 //@ ensures [validated] result2 == nil ==> ncalls("checkValidity") == 1 && callsok("checkValidity") && ncalls("update") == 1 && callsok("update")
 //@ ensures [returns-update] result2 == nil ==> as(result0, *ClientState) == callres("update", 0) && as(result1, *ConsensusState) == callres("update", 1)
+
+// ======================= C15: client creation / upgrade from a governance proposal never panics in EndBlock =========
+// (tier ii of DESIGN section 8 C15: "nopanic dryrun" accepts a panic site whose guard depends on the proposal content
+// only and that lies on every nil-returning path - the submission dry-run has already evaluated it)
+// verif:func (ClientState).Initialize
+//@ nopanic dryrun
+//@ modifies store
+
+// verif:func (ClientState).UpgradeState
+//@ nopanic dryrun
+//@ modifies store
+
+// every key under the recent-signer prefix was written by SetSigner ("recentSingers/<rev>-<height>"; writer inventory),
+// so splitting it on "/" yields the height part
+// verif:func DeleteAllSigner
+//@ nopanic
+//@ modifies store
+//@ loop 1 forkey rev uint64, h uint64 :: keyRecentSinger(Signer{Height: clienttypes.NewHeight(rev, h)})
